@@ -209,6 +209,25 @@ CHECKS['C12'] = dict(
     assumptions=['herumi BLS is trusted'],
 )
 
+CHECKS['C13'] = dict(
+    pkg='c13', level='fault_enumeration',
+    technique='fault injection on the key-generation message sequence: complete single-fault table (message position x fault kind) for five (n,t) configurations plus rapid-generated multi-fault plans; oracle error-to-client, no account on any instance, no instance crash',
+    level_text=('For (n,t) in {(2,2),(3,2),(3,3),(4,3),(5,3)} (plus a bystander instance) every message of the run - each prepare, each execute, each contribution request and '
+                'its reply - gets every applicable fault once: lost, error reply, duplicate delivery, share replaced by a random scalar, a consistent share for another '
+                'participant\'s id, one commitment altered, vector shortened/lengthened by a fresh consistent polynomial of degree t-2 / t, vector truncated/extended '
+                'without re-sharing. The harness network tampers with the real protobuf messages between real receiver handlers. Oracle: the client gets an error, no instance '
+                '(participant or bystander) holds the account in store or fetcher, and no handler panicked; for duplicate delivery the outcome must be all-or-nothing. '
+                'rapid adds plans of 1-3 faults with ids up to 2^64-1.'),
+    level_note='Commit-stage faults are outside the statement (C12 covers tampered commit replies). A recipient panic is recovered by the harness network and reported; in production nothing would recover it.',
+    parts=[part('TestC13Enum', 1, 1, qshards=4, tshards=8, no_rapid_count=True), part('TestC13Random', 150, 1500)],
+    rule=('enumerated table: 5 configurations x every message position (n prepares, n executes, n(n-1)/2 contributions) x 3/17 fault kinds, run completely in both tiers and sharded by index; '
+          'plus rapid-generated multi-fault plans; a case is non-trivial iff the run reached the faulted message and the fault was delivered; distinct = sha256 of the case JSON'),
+    essential=['enumerated-single-fault-cases', 'multi-fault-plan'] + ['delivered:' + k for k in ['lost', 'error-reply', 'duplicate', 'share-random', 'share-for-other-id',
+               'commitment-altered', 'vector-short-consistent', 'vector-long-consistent', 'vector-truncated', 'vector-extended', 'reply-share-random', 'reply-share-for-other-id',
+               'reply-commitment-altered', 'reply-vector-short-consistent', 'reply-vector-long-consistent', 'reply-vector-truncated', 'reply-vector-extended']],
+    assumptions=['herumi BLS is trusted', 'participants are chosen by Dirk (map iteration), so a fault position is "the k-th message of its kind"'],
+)
+
 ENGINES = [
     dict(name='rapid-harness', path='/verif/harness', kind_free_text='Go test module (pgregory.net/rapid v1.3.0) compiled against /repo with -tags verif; driver /verif/check shards by seed, merges coverage, writes evidence',
          serves_properties=sorted(CHECKS)),
